@@ -154,13 +154,14 @@ theorem rangeOf_WF (r : HRange) (hg : r.Good) (hs : r.single = false) (hsz : r.h
 
 /-! ### one group -/
 /-- per-record part of the round trip's domain: well formed, name text without characters that
-    mean something in host expressions, single-host names non-empty, names shorter than 1023 bytes,
-    at most 16384 hosts in a range record -/
-structure RecOK (r : HRange) : Prop where
+    mean something in host expressions, single-host names non-empty, names shorter than 1023 bytes
+    where the parser variant `cfg` still has D18 / D23 (`NameFits`), at most 16384 hosts in a range
+    record -/
+structure RecOK (cfg : Cfg) (r : HRange) : Prop where
   good : r.Good
   chars : r.pre.all PrintSpec.nameChar = true
   nonempty : r.single = true → r.pre ≠ []
-  fits : NameFits r
+  fits : NameFits cfg r
   size : r.single = false → r.hi - r.lo < Spec.RANGE_LIMIT
 
 theorem flatten_flatMap {α β : Type} (f : α → List β) : ∀ (l : List (List α)),
@@ -168,15 +169,15 @@ theorem flatten_flatMap {α β : Type} (f : α → List β) : ∀ (l : List (Lis
   | [] => rfl
   | g :: l => by simp [List.flatMap_append, flatten_flatMap f l]
 
-theorem group_word_ok (cur : HRange) (rest : List HRange) (hok : ∀ x ∈ cur :: rest, RecOK x)
+theorem group_word_ok (cfg : Cfg) (cur : HRange) (rest : List HRange) (hok : ∀ x ∈ cur :: rest, RecOK cfg x)
     (hsz : (loopRun cur rest).length ≤ Spec.RANGES_LIMIT) :
-    (wordOf (loopRun cur rest)).WF = true ∧ wordDom (wordOf (loopRun cur rest)) ∧
+    (wordOf (loopRun cur rest)).WF = true ∧ wordDom cfg (wordOf (loopRun cur rest)) ∧
     (wordOf (loopRun cur rest)).expand₁ = (loopRun cur rest).flatMap HRange.hosts := by
   have hc := hok cur (by simp)
   by_cases hs : cur.single = true
   · rw [loopRun_single cur rest hs]
     have hx : cur.pre ∈ cur.hosts := by simp [HRange.hosts, hs]
-    obtain ⟨a1, a2⟩ := host_plain_ok hc.good hc.chars hc.nonempty hc.fits hx
+    obtain ⟨a1, a2⟩ := host_plain_ok cfg hc.good hc.chars hc.nonempty hc.fits hx
     simp only [wordOf, hs, ↓reduceIte]
     refine ⟨a1, a2, ?_⟩
     simp [Spec.Word.expand₁, HRange.hosts, hs]
@@ -210,7 +211,7 @@ theorem group_word_ok (cur : HRange) (rest : List HRange) (hok : ∀ x ∈ cur :
       have hx : hostText cur cur.lo ∈ cur.hosts := by
         rw [hosts_nonsingle hs']
         exact List.mem_map.mpr ⟨cur.lo, by simp only [List.mem_range'_1]; omega, rfl⟩
-      obtain ⟨a1, a2⟩ := host_plain_ok hc.good hc.chars hc.nonempty hc.fits hx
+      obtain ⟨a1, a2⟩ := host_plain_ok cfg hc.good hc.chars hc.nonempty hc.fits hx
       simp only [hc2, ↓reduceIte, hitem]
       refine ⟨a1, a2, ?_⟩
       rw [List.flatMap_cons, List.flatMap_nil, List.append_nil, hosts_nonsingle hs']
@@ -237,16 +238,18 @@ theorem group_word_ok (cur : HRange) (rest : List HRange) (hok : ∀ x ∈ cur :
       · intro r' hr'
         obtain ⟨x, hx, rfl⟩ := List.mem_map.mp hr'
         have hxlo := (hok x (hmem x hx)).good.2 (hns x hx)
-        have hfit := (hok x (hmem x hx)).fits
-        unfold NameFits at hfit
-        simp only [hns x hx, Bool.false_eq_true, ↓reduceIte, hpre x hx] at hfit
-        unfold fitsHostBuf
-        rw [rangeOf_hi x hxlo.1]
-        have hl : (rangeOf x).loS.length = max x.width (ndig x.lo) := by simp [rangeOf, fmtPad_length]
-        have := ndig_mono hxlo.1
-        simp only [hl, Spec.renderTail, List.append_nil, List.length_nil, HOSTBUF]
-        unfold CURTOK at hfit
-        omega
+        rcases (hok x (hmem x hx)).fits with hfit | hfit
+        · exact Or.inl hfit.2
+        · refine Or.inr ?_
+          unfold NameShort at hfit
+          simp only [hns x hx, Bool.false_eq_true, ↓reduceIte, hpre x hx] at hfit
+          unfold fitsHostBuf
+          rw [rangeOf_hi x hxlo.1]
+          have hl : (rangeOf x).loS.length = max x.width (ndig x.lo) := by simp [rangeOf, fmtPad_length]
+          have := ndig_mono hxlo.1
+          simp only [hl, Spec.renderTail, List.append_nil, List.length_nil, HOSTBUF]
+          unfold CURTOK at hfit
+          omega
       · -- expansion
         simp only [Spec.Word.expand₁, Spec.renderTail, List.append_nil, Spec.groupNames, List.flatMap_map,
           List.map_flatMap]
@@ -256,14 +259,14 @@ theorem group_word_ok (cur : HRange) (rest : List HRange) (hok : ∀ x ∈ cur :
 
 /-! ### compressed form -/
 /-- COMPRESSED FORM: `hostlist_create` reads the text back as the same host sequence -/
-theorem ranged_roundtrip_L (rs : List HRange) (hok : ∀ r ∈ rs, RecOK r)
+theorem ranged_roundtrip_L (cfg : Cfg) (rs : List HRange) (hok : ∀ r ∈ rs, RecOK cfg r)
     (hgs : ∀ g ∈ PrintSpec.groups rs, g.length ≤ Spec.RANGES_LIMIT) :
-    ∃ h', create (PrintSpec.rangedTextL rs) = .ok h' ∧ h'.Good ∧ h'.hosts = rs.flatMap HRange.hosts := by
+    ∃ h', create cfg (PrintSpec.rangedTextL rs) = .ok h' ∧ h'.Good ∧ h'.hosts = rs.flatMap HRange.hosts := by
   have hP := groups_forall (fun g => g.length ≤ Spec.RANGES_LIMIT →
-      (wordOf g).WF = true ∧ wordDom (wordOf g) ∧ (wordOf g).expand₁ = g.flatMap HRange.hosts)
+      (wordOf g).WF = true ∧ wordDom cfg (wordOf g) ∧ (wordOf g).expand₁ = g.flatMap HRange.hosts)
     rs.length rs (Nat.le_refl _)
-    (fun cur rest hsub hsz => group_word_ok cur rest (fun x hx => hok x (hsub x hx)) hsz)
-  obtain ⟨h', e, g, hh⟩ := create_joinComma ((PrintSpec.groups rs).map wordOf)
+    (fun cur rest hsub hsz => group_word_ok cfg cur rest (fun x hx => hok x (hsub x hx)) hsz)
+  obtain ⟨h', e, g, hh⟩ := create_joinComma cfg ((PrintSpec.groups rs).map wordOf)
     (fun w hw => by obtain ⟨x, hx, rfl⟩ := List.mem_map.mp hw; exact (hP x hx (hgs x hx)).1)
     (fun w hw => by obtain ⟨x, hx, rfl⟩ := List.mem_map.mp hw; exact (hP x hx (hgs x hx)).2.1)
   refine ⟨h', by rw [rangedTextL_eq_words]; exact e, g, ?_⟩
